@@ -16,8 +16,15 @@ impl Serialize for BigInt {
                     serializer.write_unsigned_integer(*u64_digits.first().unwrap())
                 }
                 // nint
-                num_bigint::Sign::Minus => serializer
-                    .write_negative_integer(-(*u64_digits.first().unwrap() as i128) as i64),
+                num_bigint::Sign::Minus => {
+                    let digit = *u64_digits.first().unwrap();
+                    if digit == 1u64 << 63 {
+                        // cbor_event negates its i64 argument, which overflows for i64::MIN: write -2^63 (nint, argument 2^63 - 1) directly
+                        serializer.write_raw_bytes(&[0x3b, 0x7f, 0xff, 0xff, 0xff, 0xff, 0xff, 0xff, 0xff])
+                    } else {
+                        serializer.write_negative_integer(-(digit as i128) as i64)
+                    }
+                }
             },
             _ => {
                 // Small edge case: nint's minimum is -18446744073709551616 but in this bigint lib
